@@ -222,6 +222,10 @@ def run_config_symbolic(pid, cfg, tier, seed):
     tm.reset()
     tm.set_mode('fp' if cfg.get('domain') == 'fp' else 'real')
     prove.stats_reset()
+    # concrete sub-computations of the symbolic run (constants, zero arrays) are real floats: a NaN or inf produced there (0/0,
+    # x/0) would silently vanish in the exact-real reading (0 * NaN = 0), so it is raised instead
+    import numpy as _real_np
+    _real_np.seterr(divide='raise', invalid='raise')
     rec = {'cfg': {k: v for k, v in cfg.items() if k != '_tier'}, 'obligations': [], 'error': None, 'notes': [], 'paths': 0}
     try:
         fd = loader.fresh(symbolic=True)
